@@ -1,5 +1,6 @@
 import CookModel.Analysis.Collector
 import CookModel.Side.Builder
+import CookModel.Syntax.CharTable
 /-
   C18: hash maps that are only looked up.  The parser reads the converter's `UnitIndex`
   (`HashMap<Arc<str>, usize>`, src/convert/mod.rs:246) only through `get`; the model of that map is
@@ -127,5 +128,20 @@ theorem det_envWithFoldTable_perm (base : Env) {tbl tbl' : List (Char × List Ch
   congr 1
   funext c
   rw [det_lookup_perm hp hu]
+
+/-- the converter lookup the driver uses for the bundled units (`bundledFindUnit`, a `find?` over the
+    generated key table) is `idxGet` on that table -/
+theorem det_bundledFindUnit_eq (k : List Char) : bundledFindUnit k = idxGet unitKeyTable k := by
+  unfold bundledFindUnit
+  generalize unitKeyTable = l
+  induction l with
+  | nil => rfl
+  | cons e t ih =>
+    obtain ⟨a, v⟩ := e
+    simp only [List.find?_cons, idxGet]
+    by_cases h : k = a
+    · subst h; simp
+    · have : (a == k) = false := by simpa using fun h' => h h'.symm
+      simp [this, h, ih]
 
 end Cook
